@@ -384,7 +384,7 @@ def perturb_value(r: random.Random, v):
 
 
 def gen_config(r: random.Random, optimizer: str, validate, *, cycles=(1, 12), perturb_p=0.3,
-               pop_scales=(1, 1, 1.5, 2, 3), stop_opts=True, any_pop_p=0.3, extreme_p=0.0):
+               pop_scales=(1, 1, 1.5, 2, 3), stop_opts=True, any_pop_p=0.3, extreme_p=0.0, extreme_index=None):
     """``validate(optimizer, params)`` builds the real config (raises if the validators reject)."""
     base = copy.deepcopy(base_configs()[optimizer]["params"])
     p = dict(base)
@@ -404,11 +404,11 @@ def gen_config(r: random.Random, optimizer: str, validate, *, cycles=(1, 12), pe
     else:
         p["fitness_error"] = None
     perturbed = []
-    if extreme_p and r.random() < extreme_p:
+    if extreme_index is not None or (extreme_p and r.random() < extreme_p):
         # one parameter at a boundary / far-away value that the validators accept
         ex = extreme_candidates(optimizer, validate)
         if ex:
-            k, c = ex[r.randrange(len(ex))]
+            k, c = ex[extreme_index % len(ex)] if extreme_index is not None else ex[r.randrange(len(ex))]
             q = dict(p)
             q[k] = copy.deepcopy(c)
             try:
@@ -490,7 +490,7 @@ def gen_scenario(seed: int, optimizer: str, family: str, mode: str, validate, *,
     cfg, perturbed = gen_config(r, optimizer, validate, cycles=cyc, perturb_p=opts.get("perturb_p", 0.3),
                                 pop_scales=opts.get("pop_scales", (1, 1, 1.5, 2, 3)),
                                 stop_opts=opts.get("stop_opts", True), any_pop_p=opts.get("any_pop_p", 0.3),
-                                extreme_p=opts.get("extreme_p", 0.05))
+                                extreme_p=opts.get("extreme_p", 0.05), extreme_index=opts.get("extreme_index"))
     workers = None
     if mode != "serial":
         workers = r.choice([1, 2, 3, 4, 4, 8, 16]) if r.random() < 0.8 else r.randrange(1, 17)
